@@ -38,6 +38,25 @@ Theorem C14_injective : forall n t, In (n, t) registry ->
 Proof. exact registry_injective. Qed.
 Print Assumptions C14_injective.
 
+(* Spelled out for block headers (any digest: pre-runtime, consensus, seal, other,
+   runtime-environment-updated items in any number and order) and block bodies. *)
+Theorem C14_header_roundtrip : forall v, has_type header v = true ->
+  decode_all header (encode header v) = Some v
+  /\ (forall bs w, decode_all header bs = Some w -> bs = encode header w /\ has_type header w = true).
+Proof.
+  intros v Hv. split.
+  - exact (registry_roundtrip _ header (or_introl eq_refl) v Hv).
+  - exact (registry_canonical _ header (or_introl eq_refl)).
+Qed.
+Print Assumptions C14_header_roundtrip.
+
+Theorem C14_body_roundtrip : forall exts, has_type body (VL (map VB exts)) = true ->
+  decode_all body (encode body (VL (map VB exts))) = Some (VL (map VB exts)).
+Proof.
+  intros exts H. exact (registry_roundtrip _ body (or_intror (or_intror (or_introl eq_refl))) _ H).
+Qed.
+Print Assumptions C14_body_roundtrip.
+
 (* The codec theorems for an arbitrary well-formed wire type (the registry is an instance). *)
 Theorem C14_codec_roundtrip : forall t, wf_ty t = true -> forall v r, has_type t v = true ->
   decode t (encode t v ++ r) = Some (v, r).
